@@ -1112,6 +1112,19 @@ func (em *emitter) emitTypeSwitch(node *ast.TypeSwitch) {
 			} else {
 				em.fb.bindVarReg(guardNewVar, expr)
 			}
+			// A variable that escapes (its address is taken or a function
+			// literal refers to it) lives in an indirect register.
+			if ident := node.Assignment.Lhs[0].(*ast.Identifier); em.varStore.mustBeDeclaredAsIndirect(ident) {
+				typ := em.typ(guardExpr)
+				if len(clause.Expressions) == 1 && !em.isPredeclNil(clause.Expressions[0]) {
+					typ = em.ti(clause.Expressions[0]).Type
+				}
+				reg := em.fb.scopeLookup(guardNewVar)
+				indirect := em.fb.newIndirectRegister()
+				em.fb.emitNew(typ, -indirect)
+				em.changeRegister(false, reg, indirect, typ, typ)
+				em.fb.bindVarReg(guardNewVar, indirect)
+			}
 		}
 		em.emitNodes(clause.Body)
 		em.fb.exitScope()
